@@ -167,11 +167,13 @@ class Sim:
         self.timer_steps_after_lost = 0
         self.violated = False
         self.fired = set()          # which deciding monitors fired in this case
+        self.timer_drop_kind = None
+        self.peer_dropped = False
 
     # ---------------------------------------------------------------------------------------
     def log(self, *a):
         if self.trace is not None:
-            self.trace.append((round(self.W.now() - self.base, 6),) + a)
+            self.trace.append((round(self.W.now() - getattr(self, "t_c", self.base), 6),) + a)
 
     def viol(self, key, what, **detail):
         self.violated = True
@@ -302,6 +304,7 @@ class Sim:
             self.react("drop", now)
             self.react_all_void()
             self.snap_closed = None
+            self.peer_dropped = True
             ep.peer_close(clean=(kind == "drop_clean"))
             self.on_lost("peer")
             return
@@ -553,6 +556,11 @@ class Sim:
         # 6. overdue deadlines
         if self.dropped_at is None and not self.lost:
             for k, dl in list(self.live.items()):
+                if dl.grey and now > dl.D + EPS:
+                    # a reaction with less than 1 s to spare was evidently accepted: the deadline is over
+                    del self.live[k]
+                    R.count("grey_reaction_accepted_%s" % k)
+                    continue
                 if not dl.grey and not dl.overdue_reported and now > dl.D + EPS:
                     dl.overdue_reported = True
                     self.fired.add("deadline-" + k)
@@ -614,8 +622,14 @@ class Sim:
         live = self.live_at_drop
         cands = [k for k, dl in live.items() if dl.D - 1.0 + EPS < t_d <= dl.D + EPS]
         timer_step = (self.drop_cause == "timer")
-        if not timer_step and rk is None:
-            return      # dropped as the direct consequence of a peer/application action and reported as such
+        if not timer_step:
+            # dropped as the direct consequence of a peer/application action: no timer may be named
+            if rk is not None:
+                self.viol("timer-reported-for-non-timer-drop/%s/%s" % (rk, "lost-delayed" if self.lost_at > t_d + EPS else "lost-at-once"),
+                          "transport closed at %s by %s (no timer involved), connection-lost delivered at %s, but onClose(%r, %r, %r) "
+                          "names a timer" % (self.rel(t_d), self.drop_cause, self.rel(self.lost_at), was_clean, code, reason))
+            return
+        self.timer_drop_kind = rk
         R.count("timer_drops_evaluated")
         if rk in cands:
             self.fired.add("deadline-" + rk)
@@ -629,7 +643,10 @@ class Sim:
             dl = live[rk]
             self.fired.add("deadline-" + rk)
             R.count("deadline_evaluated_%s_%s" % (rk, self.role))
-            if t_d <= dl.D - 1.0 + EPS:
+            if dl.grey and t_d > dl.D + EPS:
+                self.viol("spurious-timer-drop/%s/%s" % (rk, self.phase_at_drop + ("-no-ping-on-wire" if rk == "ping" and self.pending_ping_at_drop is None else "")),
+                          "dropped at %s and reported %r, but the only %s deadline (D=%s) was over" % (self.rel(t_d), reason, rk, self.rel(dl.D)))
+            elif t_d <= dl.D - 1.0 + EPS:
                 self.viol("dropped-early/%s" % rk, "dropped by the %s timer %.3f s before its deadline (armed %s, D=%s, dropped %s): "
                           "a peer with 1 s to spare would have been cut off" % (rk, dl.D - t_d, self.rel(dl.armed), self.rel(dl.D), self.rel(t_d)))
             # late drops were reported as not-dropped-by-deadline already
@@ -705,10 +722,11 @@ class Sim:
 
     def evidence(self):
         R = self.R
-        if self.dropped_at is not None and self.drop_cause != "timer":
+        if self.dropped_at is not None or self.peer_dropped:
             for k, (r, D) in self.responsive.items():
-                R.count("responsive_not_dropped_%s" % k)
-                self.fired.add("responsive-" + k)
+                if k != self.timer_drop_kind:
+                    R.count("responsive_not_dropped_%s" % k)
+                    self.fired.add("responsive-" + k)
         R.seen("phases_at_drop", "%s/%s" % (getattr(self, "phase_at_drop", None), self.drop_cause))
         for a, b in self.proto.__dict__.get("vf_state_log", ()):
             R.seen("transitions", "%s->%s" % (a, b))
